@@ -93,33 +93,71 @@ def fname(layout, name):
     return layout.get("prefix", "") + name + layout.get("suffix", ".pt")
 
 
+def subname(layout, s):
+    """Name of the sub-directory the data set is told to use for `s` (None: told not to look)."""
+    return layout.get("sub", {}).get(s, s)
+
+
+def matches(layout, nm):
+    return nm.startswith(layout.get("prefix", "")) and nm.endswith(layout.get("suffix", ".pt"))
+
+
 def write_dir(root, case):
-    """Write the case's files. Sub-directory `ali`/`ref` exists iff case['dirs'] lists it."""
+    """Write the case's files. Sub-directory `ali`/`ref` exists iff case['dirs'] lists it (under the
+    name the layout gives it; a sub-directory the data set is told not to look at keeps its default
+    name). `layout.stray` = [[directory name, file name], ...]: junk files that must be ignored and
+    left alone (they never match prefix AND suffix inside a directory in use)."""
     import torch
     layout = case.get("layout", {})
     for s in case["dirs"]:
-        os.makedirs(os.path.join(root, s), exist_ok=True)
+        os.makedirs(os.path.join(root, subname(layout, s) or s), exist_ok=True)
     for u in case["utts"]:
         for s, mk in (("feat", make_feat), ("ali", make_ali), ("ref", make_ref)):
             if u.get(s) is not None and s in case["dirs"]:
-                torch.save(mk(u[s]), os.path.join(root, s, fname(layout, u["name"])))
+                torch.save(mk(u[s]), os.path.join(root, subname(layout, s) or s, fname(layout, u["name"])))
     for s, nm in layout.get("stray", []):
-        # files that do not match prefix/suffix: must be ignored and left alone
-        if s in case["dirs"]:
-            with open(os.path.join(root, s, nm), "wb") as f:
-                f.write(b"not a tensor file")
+        os.makedirs(os.path.join(root, s), exist_ok=True)
+        with open(os.path.join(root, s, nm), "wb") as f:
+            f.write(b"not a tensor file")
 
 
 def discovered(case):
     """Independent statement of SpectDataSet.find_utt_ids: ids with a file in every sub-directory in
-    use; `ali/`, `ref/` are in use iff they exist and hold at least one matching file."""
+    use, restricted to `subset_ids` when that is non-empty; `ali/`, `ref/` are in use iff the data set
+    was told to look (a name was given; for `ali/` also: alignments are not suppressed), they exist and
+    hold at least one matching file."""
     dirs = case["dirs"]
+    layout = case.get("layout", {})
+    cfg = case.get("cfg", {})
     have = {s: {u["name"] for u in case["utts"] if u.get(s) is not None and s in dirs} for s in SUBDIRS}
+    look = {"ali": subname(layout, "ali") is not None and not cfg.get("suppress_alis", False),
+            "ref": subname(layout, "ref") is not None}
     ids = set(have["feat"])
+    if layout.get("subset"):
+        ids &= set(layout["subset"])
+    used = {}
     for s in ("ali", "ref"):
-        if have[s]:
+        used[s] = bool(look[s] and have[s])
+        if used[s]:
             ids &= have[s]
-    return sorted(ids), {s: bool(have[s]) for s in ("ali", "ref")}
+    return sorted(ids), used
+
+
+def listing(root, case):
+    """What os.listdir shows the data set (input of the Lean model of the discovery)."""
+    layout = case.get("layout", {})
+    cfg = case.get("cfg", {})
+    out = {"prefix": layout.get("prefix", ""), "suffix": layout.get("suffix", ".pt"),
+           "subset": list(layout.get("subset", []))}
+    for s in SUBDIRS:
+        nm = subname(layout, s)
+        p = os.path.join(root, nm) if nm is not None else None
+        if s == "ali" and cfg.get("suppress_alis", False):
+            p = None
+        out[s] = sorted(os.listdir(p)) if p is not None and os.path.isdir(p) else None
+    if out["feat"] is None:
+        out["feat"] = []
+    return out
 
 
 def snapshot(root, case):
@@ -142,12 +180,12 @@ def read_utts(root, case, ids, used):
     res = []
     for name in ids:
         fn = fname(layout, name)
-        f = torch.load(os.path.join(root, "feat", fn))
+        f = torch.load(os.path.join(root, subname(layout, "feat"), fn))
         u = {"feat": desc_feat(f), "ali": None, "ref": None}
         if used["ali"]:
-            u["ali"] = desc_ali(torch.load(os.path.join(root, "ali", fn)))
+            u["ali"] = desc_ali(torch.load(os.path.join(root, subname(layout, "ali"), fn)))
         if used["ref"]:
-            u["ref"] = desc_ref(torch.load(os.path.join(root, "ref", fn)))
+            u["ref"] = desc_ref(torch.load(os.path.join(root, subname(layout, "ref"), fn)))
         res.append(u)
     return res
 
@@ -157,20 +195,23 @@ def feat_digest(root, case, ids):
     layout = case.get("layout", {})
     out = []
     for name in ids:
-        f = torch.load(os.path.join(root, "feat", fname(layout, name)))
+        f = torch.load(os.path.join(root, subname(layout, "feat"), fname(layout, name)))
         out.append(repr(f.tolist()) if isinstance(f, torch.Tensor) else repr(f))
     return out
 
 
 # ------------------------------------------------------------------ generators
-def base_dir(rng, n, has_ali, ref_kind, max_T=4):
-    """A well-formed directory of n utterances."""
+HARD_NAMES = ["u10", "u2", "B", "a", "p-x", "x.pt", "-", "u_1", "\u00e9t\u00e9", "Z9", ".pt.pt", "p-"]
+
+
+def base_dir(rng, n, has_ali, ref_kind, max_T=4, names=None):
+    """A well-formed directory of n utterances (named u0, u1, ... unless `names` is given)."""
     F = rng.choice([1, 2, 3])
     fdt = rng.choice(["f32", "f32", "f64", "i64"])
     utts = []
     for i in range(n):
         T = rng.randrange(0, max_T + 1)
-        u = {"name": f"u{i}", "feat": {"tensor": True, "dtype": fdt, "dev": "cpu", "dims": [T, F]},
+        u = {"name": names[i] if names else f"u{i}", "feat": {"tensor": True, "dtype": fdt, "dev": "cpu", "dims": [T, F]},
              "ali": None, "ref": None}
         if has_ali:
             u["ali"] = {"dtype": "i64", "dev": "cpu", "vec": [rng.randrange(0, 3) for _ in range(T)]}
@@ -193,6 +234,79 @@ def base_dir(rng, n, has_ali, ref_kind, max_T=4):
         utts.append(u)
     dirs = ["feat"] + (["ali"] if has_ali else []) + (["ref"] if ref_kind else [])
     return {"utts": utts, "dirs": dirs}
+
+
+def rand_layout(rng, case, cli=False, level=2):
+    """A non-default way of pointing a data set at the directory `case` (utts/dirs): file prefix and
+    suffix, sub-directory names, a `subset_ids` restriction, stray files that must be ignored, decoy
+    directories under the default names. Renames the utterances (sorted order != creation order, an
+    empty id, ids containing the prefix/suffix). `cli`: only what the command line can express."""
+    lay = {}
+    lay["prefix"] = rng.choice(["", "", "p-", "x.", "feat"])
+    lay["suffix"] = rng.choice([".pt", ".pt", ".x", "", ".npy.pt"])
+    n = len(case["utts"])
+    pool = list(HARD_NAMES)
+    if lay["prefix"]:  # (torch.save refuses a file whose name is only an extension)
+        pool.append("")
+    if level >= 1:
+        rng.shuffle(pool)
+        for u, nm in zip(case["utts"], pool):
+            u["name"] = nm
+    sub = {}
+    for s, alts in (("feat", ["feats", "fbank"]), ("ali", ["pdf_ali", "ref"]), ("ref", ["trans", "ali"])):
+        if rng.random() < 0.4:
+            sub[s] = rng.choice(alts)
+    # never the same directory twice
+    if len({sub.get(s, s) for s in SUBDIRS}) < 3:
+        sub = {"ali": "ref", "ref": "ali"} if rng.random() < 0.5 else {}
+    if not cli and rng.random() < 0.15:
+        s_none = rng.choice(["ali", "ref"])
+        # the files of a sub-directory the data set is told not to look at stay under the default name
+        if s_none not in [v for k, v in sub.items() if k != s_none]:
+            sub[s_none] = None
+    if sub:
+        lay["sub"] = sub
+    names = [u["name"] for u in case["utts"]]
+    if not cli and names and rng.random() < 0.4:
+        k = rng.randrange(1, len(names) + 1)
+        lay["subset"] = sorted(rng.sample(names, k)) + (["nope"] if rng.random() < 0.5 else [])
+    # strays: right prefix / wrong suffix, wrong prefix / right suffix, neither; never both
+    stray = []
+    cands = [lay["prefix"] + "zz.notes", "README", "q" + "zz" + lay["suffix"], lay["prefix"] + "u0.tmp",
+             "." + lay["prefix"] + "u0" + lay["suffix"] + "~"]
+    for s in SUBDIRS:
+        d = sub.get(s, s)
+        if d is None or s not in case["dirs"]:
+            continue
+        # feat/ always holds a prefix-only and a suffix-only file (an option that is not honoured lets
+        # them in); the companions a random selection
+        pick = cands[:1] + cands[2:3] + rng.sample(cands, 1) if s == "feat" else rng.sample(cands, rng.randrange(0, 3))
+        for nm in pick:
+            if not matches(lay, nm) and [d, nm] not in stray:
+                stray.append([d, nm])
+    # decoys: a directory with the DEFAULT name holding a junk file with a matching name, when the data
+    # set is pointed elsewhere (reading or writing there would be noticed)
+    taken = {sub.get(s, s) or s for s in SUBDIRS}
+    for s in SUBDIRS:
+        if s in sub and s not in taken and rng.random() < 0.7:
+            stray.append([s, fname(lay, names[0] if names else "u0")])
+    lay["stray"] = stray
+    return lay
+
+
+def big_classes(rng, case):
+    """Re-label alignment classes and token ids with indices of 1, 2 and 3 decimal digits (the report
+    zero-pads its keys to the width of the largest)."""
+    top = rng.choice([9, 10, 11, 99, 100, 101, 120])
+    m = {0: 0, 1: rng.choice([1, top // 2 + 1]), 2: top, 3: rng.choice([top - 1, 3])}
+    for u in case["utts"]:
+        a, r = u.get("ali"), u.get("ref")
+        if a is not None and "vec" in a:
+            a["vec"] = [m.get(x, x) for x in a["vec"]]
+        if r is not None and "d1" in r:
+            r["d1"] = [m.get(x, x) for x in r["d1"]]
+        if r is not None and "d2" in r:
+            r["d2"] = [[m.get(row[0], row[0])] + row[1:] for row in r["d2"]]
 
 
 def T_of(u):
